@@ -130,7 +130,9 @@ type retSite struct {
 type summary struct {
 	rets []retSite
 	out  map[int]cls // writes through parameter i (receiver = 0)
-	done bool
+	// parameter i (a slice, or a pointer to one) is refilled in place: append(p[:0], ...), copy(p, ...), p[j] = v
+	reuse map[int]bool
+	done  bool
 }
 
 // class of result idx as seen by a caller (see package comment for `imm`).
@@ -165,6 +167,10 @@ type fn struct {
 	ptypes []string
 	sum    *summary
 	busy   bool
+	// recycled storage this function (or a callee) writes IN PLACE: context fields re-used through
+	// append(f[:0], ...), f = x[:0], clear / delete / copy / element assignment, and fasthttp objects
+	// changed through a mutator (SetBodyRaw, SetPath, Del ...). Accumulated over all rounds (monotone).
+	writes map[string]bool
 }
 
 type prog struct {
@@ -348,6 +354,10 @@ var extPass = map[string]int{
 	"fasthttp.AppendUnquotedArg": 0, "fasthttp.AppendQuotedArg": 0, "msgp.AppendString": 0, "msgp.AppendArrayHeader": 0,
 	"msgp.AppendUint8": 0, "msgp.AppendBool": 0,
 }
+
+// externals that modify their (slice) argument in place
+var extInPlace = map[string]bool{"utils.ToLowerBytes": true, "utils.ToUpperBytes": true, "sort.Strings": true, "sort.Slice": true,
+	"slices.Sort": true, "slices.Reverse": true}
 
 var basicTypes = map[string]bool{"string": true, "int": true, "int8": true, "int16": true, "int32": true, "int64": true,
 	"uint": true, "uint8": true, "uint16": true, "uint32": true, "uint64": true, "float32": true, "float64": true,
@@ -636,6 +646,9 @@ func (fr *frame) evalArgs(args []ast.Expr) []cls {
 // callSummary evaluates a call to a known function: result class per index and side effects.
 func (fr *frame) callKnown(g *fn, recvExpr ast.Expr, args []ast.Expr, idx int) cls {
 	s := fr.p.summarize(g)
+	for w := range g.writes {
+		fr.wrote(w)
+	}
 	// actual classes aligned with g.params (receiver first)
 	var actual []cls
 	var actualExpr []ast.Expr
@@ -681,6 +694,12 @@ func (fr *frame) callKnown(g *fn, recvExpr ast.Expr, args []ast.Expr, idx int) c
 			fmt.Fprintf(os.Stderr, "%v/%b ", a.names(), a.params)
 		}
 		fmt.Fprintf(os.Stderr, " out=%v\n", s.out)
+	}
+	// parameters the callee refills in place
+	for pi := range s.reuse {
+		if pi < len(actualExpr) && actualExpr[pi] != nil {
+			fr.reused(actualExpr[pi])
+		}
 	}
 	// side effects through parameters
 	for pi, eff := range s.out {
@@ -773,6 +792,66 @@ func (fr *frame) sharedField(e ast.Expr) (string, bool) {
 // is kept; registration code legitimately stores data this interpreter does not follow (parsed route
 // segments, handler lists ...), which comes from the application, never from request buffers.
 func sharedBits(c cls) cls { return cls{bits: c.bits & (bA | bI)} }
+
+// reused: the storage denoted by e is refilled in place. A context field is recorded directly; a
+// parameter (or a local derived from parameters) is recorded in the summary, and resolved at the call
+// sites (callKnown).
+func (fr *frame) reused(e ast.Expr) bool {
+	if fld, ok := fr.ctxField(e); ok {
+		switch ft := fr.p.structs["fiber.DefaultCtx"][fld]; {
+		case ft == "App" || ft == "Route" || ft == "Bind" || ft == "Redirect" || ft == "DefaultReq" || ft == "DefaultRes" || isFast(ft):
+			return false // a pointer to another object, not a buffer of the context
+		}
+		fr.p.addField(fld, cA)
+		fr.wrote(fld)
+		return true
+	}
+	id := rootIdent(e)
+	if id == nil {
+		return false
+	}
+	mark := func(i int) {
+		if !fr.sum.reuse[i] {
+			fr.sum.reuse[i] = true
+			fr.change = true
+		}
+	}
+	if i, ok := fr.pidx[id.Name]; ok {
+		mark(i)
+	}
+	if cur, ok := fr.env[id.Name]; ok {
+		for i := 0; i < 64; i++ {
+			if cur.params&(1<<uint(i)) != 0 {
+				mark(i)
+			}
+		}
+	}
+	return false
+}
+
+// wrote records an in-place write of recycled storage by the function under analysis.
+func (fr *frame) wrote(what string) {
+	if fr.f == nil {
+		return
+	}
+	if fr.f.writes == nil {
+		fr.f.writes = map[string]bool{}
+	}
+	if !fr.f.writes[what] {
+		fr.f.writes[what] = true
+		fr.change = true
+	}
+}
+
+// fasthttp methods that change the object they are called on
+func fastMutator(name string) bool {
+	for _, p := range []string{"Set", "Del", "Reset", "Add", "Append", "Write", "Swap", "Release", "Remove", "CopyTo", "Read", "Parse", "Disable", "Enable"} {
+		if strings.HasPrefix(name, p) {
+			return true
+		}
+	}
+	return false
+}
 
 func (p *prog) addField(f string, c cls) {
 	if d := os.Getenv("C06_DEBUG_FIELD"); d == f {
@@ -999,7 +1078,7 @@ func (fr *frame) evalCall(x *ast.CallExpr, idx int) cls {
 				c := fr.eval(x.Args[0])
 				if sl, ok := x.Args[0].(*ast.SliceExpr); ok && sl.Low == nil {
 					if hb, ok := sl.High.(*ast.BasicLit); ok && hb.Value == "0" {
-						if _, isField := fr.ctxField(sl.X); isField {
+						if fr.reused(sl.X) {
 							c = c.join(cA) // buffer of the pooled context reused across requests
 						}
 					}
@@ -1013,10 +1092,22 @@ func (fr *frame) evalCall(x *ast.CallExpr, idx int) cls {
 				if len(x.Args) > 0 {
 					if fld, ok := fr.ctxField(x.Args[0]); ok {
 						fr.p.addField(fld, cC) // emptied in place and reused
+						fr.wrote(fld)
 					}
 				}
 				return cO
-			case "make", "new", "len", "cap", "copy", "min", "max", "panic", "recover", "print", "println":
+			case "copy":
+				a := fr.evalArgs(x.Args)
+				if len(x.Args) == 2 {
+					fr.reused(x.Args[0])
+					if fld, ok := fr.ctxField(x.Args[0]); ok {
+						fr.p.addField(fld, fr.argless(a[1]))
+					} else {
+						fr.writeThrough(x.Args[0], a[1])
+					}
+				}
+				return cO
+			case "make", "new", "len", "cap", "min", "max", "panic", "recover", "print", "println":
 				fr.evalArgs(x.Args)
 				return cO
 			}
@@ -1071,6 +1162,14 @@ func (fr *frame) evalCall(x *ast.CallExpr, idx int) cls {
 				}
 			}
 			args := fr.evalArgs(x.Args)
+			if extInPlace[q] && len(x.Args) > 0 {
+				// rewrites the bytes of its argument and returns it
+				if !fr.reused(x.Args[0]) && !args[0].ownedOnly() {
+					// not a context buffer and not known to be a private allocation (recycled storage, a
+					// callback parameter, anything not understood): counts as a write to recycled storage
+					fr.wrote("storage not known to be private, rewritten in place by " + q)
+				}
+			}
 			if q == "bytebufferpool.Get" {
 				return cA // pooled buffer: its bytes (bb.B, bb.Bytes()) are recycled storage; bb.String() copies
 			}
@@ -1100,6 +1199,9 @@ func (fr *frame) evalCall(x *ast.CallExpr, idx int) cls {
 		}
 		args := fr.evalArgs(x.Args)
 		if isFast(bt) || fr.fastRooted(f.X) {
+			if fastMutator(name) {
+				fr.wrote("fasthttp." + name)
+			}
 			switch name {
 			case "String", "MultipartForm", "FormFile", "RemoteIP", "RemoteAddr", "LocalAddr", "StatusCode", "ID", "Len", "IsTLS", "Conn", "UserValue":
 				return cO // allocate / not request text
@@ -1445,12 +1547,20 @@ func (fr *frame) assign(x *ast.AssignStmt) {
 				}
 			}
 		case *ast.IndexExpr:
+			fr.reused(lv.X) // element assignment: the container is changed in place
+			if cx := fr.eval(lv.X); cx.bits&bA != 0 {
+				// v := Header.Peek(k); v[i] = ... : bytes of recycled storage rewritten through a local value.
+				// (Not applied to copy(dst, src): a local destination carries the class of what was copied
+				// INTO it, which says nothing about where it lives.)
+				fr.wrote("recycled storage reached through a local value")
+			}
 			fr.writeThrough(lv.X, c.join(fr.eval(lv.Index)))
 		default:
 			if f, ok := fr.ctxField(l); ok {
 				if sl, isSl := x.Rhs[min(i, len(x.Rhs)-1)].(*ast.SliceExpr); isSl && sl.Low == nil {
 					if hb, ok := sl.High.(*ast.BasicLit); ok && hb.Value == "0" {
 						c = c.join(cC) // field = x[:0]: the backing array is kept for the next request
+						fr.wrote(f)
 					}
 				}
 				fr.p.addField(f, fr.argless(c))
@@ -1469,7 +1579,7 @@ func (p *prog) summarize(g *fn) *summary {
 	}
 	if g.busy {
 		if g.sum == nil {
-			g.sum = &summary{out: map[int]cls{}}
+			g.sum = &summary{out: map[int]cls{}, reuse: map[int]bool{}}
 		}
 		return g.sum // recursion: current approximation
 	}
@@ -1481,15 +1591,21 @@ func (p *prog) summarize(g *fn) *summary {
 	var last *summary
 	env := map[string]cls{}
 	for iter := 0; iter < 6; iter++ {
-		fr := &frame{p: p, f: g, env: env, typ: map[string]string{}, pidx: map[string]int{}, sum: &summary{out: map[int]cls{}}}
+		fr := &frame{p: p, f: g, env: env, typ: map[string]string{}, pidx: map[string]int{}, sum: &summary{out: map[int]cls{}, reuse: map[int]bool{}}}
 		if prev != nil {
 			for k, v := range prev.out {
 				fr.sum.out[k] = v
+			}
+			for k := range prev.reuse {
+				fr.sum.reuse[k] = true
 			}
 		}
 		if last != nil {
 			for k, v := range last.out {
 				fr.sum.out[k] = v
+			}
+			for k := range last.reuse {
+				fr.sum.reuse[k] = true
 			}
 		}
 		for i, nm := range g.params {
@@ -1604,6 +1720,9 @@ type row struct {
 	rets       []retSite
 }
 
+// recycled storage written in place by the accessor of a row (kind + "/" + name)
+var rowWrites = map[string][]string{}
+
 func main() {
 	repo := flag.String("repo", "/repo", "fiber repository")
 	out := flag.String("out", "lean/FiberModel/Generated/C06Facts.lean", "output file")
@@ -1698,6 +1817,12 @@ func main() {
 			}
 			rs = append(rs, retSite{r.g, []cls{v}})
 		}
+		var ws []string
+		for w := range g.writes {
+			ws = append(ws, w)
+		}
+		sort.Strings(ws)
+		rowWrites[kind+"/"+name] = ws
 		rows = append(rows, row{kind, name, rs})
 	}
 	keys := make([]string, 0, len(p.funcs))
@@ -1717,6 +1842,27 @@ func main() {
 			}
 		}
 		if !text {
+			// predicates (Fresh, Is, XHR, Secure ...): nothing text-like is handed out, but the handler calls
+			// them between obtaining a value and returning - their in-place writes count all the same
+			pred := len(g.decl.Type.Results.List) > 0
+			for _, f := range g.decl.Type.Results.List {
+				if typeStr(f.Type) != "bool" {
+					pred = false
+				}
+			}
+			if pred {
+				p.summarize(g)
+				var ws []string
+				for w := range g.writes {
+					ws = append(ws, w)
+				}
+				sort.Strings(ws)
+				name := map[string]string{"DefaultCtx": "", "DefaultReq": "Req.", "DefaultRes": "Res."}
+				if pfx, ok := name[g.recv]; ok {
+					rowWrites["ctx/"+pfx+g.name] = ws
+					rows = append(rows, row{"ctx", pfx + g.name, nil})
+				}
+			}
 			continue
 		}
 		switch {
@@ -1775,7 +1921,12 @@ func main() {
 			gn := map[guard]string{gAlways: ".always", gImmOnly: ".immOnly", gMutOnly: ".mutOnly"}[s.g]
 			rs = append(rs, fmt.Sprintf("⟨%s, [%s]⟩", gn, srcList(s.vals[0].names())))
 		}
-		fmt.Fprintf(&b, "  ⟨.%s, %q, [%s]⟩%s\n", r.kind, r.name, strings.Join(rs, ", "), comma(i, len(rows)))
+		rw := rowWrites[r.kind+"/"+r.name]
+		ws := make([]string, len(rw))
+		for j, w := range rw {
+			ws[j] = fmt.Sprintf("%q", w)
+		}
+		fmt.Fprintf(&b, "  ⟨.%s, %q, [%s], [%s]⟩%s\n", r.kind, r.name, strings.Join(rs, ", "), strings.Join(ws, ", "), comma(i, len(rows)))
 	}
 	b.WriteString("]\n\nend C06.Facts\n")
 	if err := os.MkdirAll(filepath.Dir(*out), 0o755); err != nil {
@@ -1946,7 +2097,7 @@ func (p *prog) bindCallRows(g *fn) []row {
 
 // frameFor re-creates the converged environment of g (for evaluating sub-expressions of its body).
 func (p *prog) frameFor(g *fn) *frame {
-	fr := &frame{p: p, f: g, env: map[string]cls{}, typ: map[string]string{}, pidx: map[string]int{}, sum: &summary{out: map[int]cls{}}}
+	fr := &frame{p: p, f: g, env: map[string]cls{}, typ: map[string]string{}, pidx: map[string]int{}, sum: &summary{out: map[int]cls{}, reuse: map[int]bool{}}}
 	for i, nm := range g.params {
 		if nm != "_" {
 			fr.pidx[nm] = i
@@ -1955,7 +2106,7 @@ func (p *prog) frameFor(g *fn) *frame {
 	}
 	for iter := 0; iter < 4; iter++ {
 		fr.change = false
-		fr.sum = &summary{out: map[int]cls{}}
+		fr.sum = &summary{out: map[int]cls{}, reuse: map[int]bool{}}
 		var dummy cls
 		fr.walkBlock(g.decl.Body.List, gAlways, &dummy)
 		if !fr.change {
